@@ -1,6 +1,7 @@
 package main
 
 import (
+	"fmt"
 	"go/constant"
 	"go/token"
 	"go/types"
@@ -857,4 +858,107 @@ func forEachInstrDeep(p *Prog, fn *ssa.Function, depth int, f func(ssa.Instructi
 		}
 	}
 	walk(fn, 0)
+}
+
+// fieldKnownAt: path-sensitive, field-keyed boolean knowledge. Walks every path from fn's entry to `at`,
+// learning the value of the boolean fields in `track` from branches on loads of them (an If on a load, on its
+// negation, and both arms of the short-circuit forms they lower to) and forgetting a field at every instruction
+// for which volatile(field, instr) is true (e.g. the lock is released, or the field is stored). Branches that
+// contradict what is known on the path are not followed. Returns true iff on every path that reaches `at` the
+// field `want` is known to hold value `val`.
+func fieldKnownAt(at ssa.Instruction, track []*types.Var, volatile func(f *types.Var, in ssa.Instruction) bool, want *types.Var, val bool) bool {
+	fn := at.Parent()
+	type know map[*types.Var]bool
+	enc := func(k know) string {
+		s := ""
+		for _, f := range track {
+			if v, ok := k[f]; ok {
+				s += fmt.Sprintf("%s=%v,", f.Name(), v)
+			}
+		}
+		return s
+	}
+	fieldOfCond := func(v ssa.Value) (*types.Var, bool, bool) { // field, value-when-cond-true, ok
+		neg := false
+		for {
+			if u, ok := v.(*ssa.UnOp); ok && u.Op == token.NOT {
+				neg = !neg
+				v = u.X
+				continue
+			}
+			break
+		}
+		lf, _ := loadedField(v)
+		for _, f := range track {
+			if lf == f {
+				return f, !neg, true
+			}
+		}
+		return nil, false, false
+	}
+	seen := map[string]bool{}
+	result := true
+	reached := false
+	steps := 0
+	var walk func(b *ssa.BasicBlock, i int, k know)
+	walk = func(b *ssa.BasicBlock, i int, k know) {
+		steps++
+		if steps > 100000 || !result {
+			result = false
+			return
+		}
+		for ; i < len(b.Instrs); i++ {
+			in := b.Instrs[i]
+			if in == at {
+				reached = true
+				if v, ok := k[want]; !ok || v != val {
+					result = false
+				}
+				return
+			}
+			for _, f := range track {
+				if volatile != nil && volatile(f, in) {
+					delete(k, f)
+				}
+			}
+			if st, ok := in.(*ssa.Store); ok {
+				for _, f := range track {
+					if fieldOfAddr(st.Addr) == f {
+						if c, isK := st.Val.(*ssa.Const); isK && c.Value != nil {
+							k[f] = c.Value.String() == "true"
+						} else {
+							delete(k, f)
+						}
+					}
+				}
+			}
+		}
+		ifi, _ := b.Instrs[len(b.Instrs)-1].(*ssa.If)
+		for si, s := range b.Succs {
+			nk := know{}
+			for f, v := range k {
+				nk[f] = v
+			}
+			if ifi != nil && b.Succs[0] != b.Succs[1] {
+				if f, whenTrue, ok := fieldOfCond(ifi.Cond); ok {
+					v := whenTrue
+					if si == 1 {
+						v = !whenTrue
+					}
+					if known, has := k[f]; has && known != v {
+						continue // contradicts what this path already knows
+					}
+					nk[f] = v
+				}
+			}
+			key := fmt.Sprintf("%d|%s", s.Index, enc(nk))
+			if seen[key] {
+				continue
+			}
+			seen[key] = true
+			walk(s, 0, nk)
+		}
+	}
+	walk(fn.Blocks[0], 0, know{})
+	return result && reached
 }
